@@ -64,7 +64,7 @@ Section Run.
   Hypothesis Hhold : c_hold cfg = true.
   Hypothesis Hincl : c_incl cfg = false.
 
-  Hypothesis U_id : forall b, In b U -> bid b <> 0 /\ bparent b <> 0 /\ bid b <> bparent b.
+  Hypothesis U_id : forall b, In b U -> bid b <> 0 /\ bid b <> bparent b.
   Hypothesis U_uniq : forall x y, In x U -> In y U -> bid x = bid y -> x = y.
   Hypothesis U_up : forall x y, In x U -> In y U -> bparent x = bid y -> bnum y < bnum x.
   Hypothesis D_decl : forall b, In b U -> decl_none U b.
@@ -104,9 +104,9 @@ Section Run.
 
   (* from the creation of the Forkable: nothing delivered yet, or the LIB was discovered *)
   Definition Phase (s : fstate) (E : list event) : Prop :=
-    (PreInv U s /\ E = []) \/ exists a Fin S c, Resume cons0 E a s Fin S c.
+    (PreInv U cfg s /\ E = []) \/ exists a Fin S c, Resume cons0 E a s Fin S c.
 
-  Lemma run_pre : forall h s, PreInv U s -> (forall b, In b h -> In b U) ->
+  Lemma run_pre : forall h s, PreInv U cfg s -> (forall b, In b h -> In b U) ->
     exists s', run_ok cfg s h s' /\ Phase s' (all_events (fk_run cfg s h)).
   Proof.
     induction h as [|b h IH]; intros s HP Hh.
